@@ -15,21 +15,25 @@ pub enum Mode { Key, Pass }
 pub struct Case { pub size: u64, pub mode: Mode, pub seed: u64, pub read_var: u8 }
 
 /// Plaintext source: a function of the offset, produced on the fly. Checks the encrypt-side lag inline.
-struct Source { seed: u64, size: u64, pos: u64, var: u8, calls: u64, written: Arc<std::sync::atomic::AtomicU64>, hdr: u64, lag_violation: Option<String> }
+struct Source { seed: u64, size: u64, pos: u64, var: u8, calls: u64, written: Arc<std::sync::atomic::AtomicU64>, hdr: u64, lag_violation: Option<String>, nchunks: u64, ends: [u64; 8], last_end: u64 }
 impl Read for Source {
     fn read(&mut self, buf: &mut [u8]) -> io::Result<usize> {
         // incremental output: once more than two further chunks have been consumed, chunk j must be on the sink
-        let m = self.pos / CS as u64;
-        if self.var == 0 && m >= 3 && self.lag_violation.is_none() {
-            let need = self.hdr + (m - 2) * (CS as u64 + 32);
+        // every read that returned data is one input chunk (the encryptor seals what one read gave it); `ends`
+        // remembers where the output record of each recent chunk must end
+        let m = self.nchunks;
+        if m >= 3 && self.lag_violation.is_none() {
+            let need = self.ends[((m - 3) % 8) as usize];
             let have = self.written.load(std::sync::atomic::Ordering::SeqCst);
-            if have < need { self.lag_violation = Some(format!("encryption had consumed {} input chunks but only {} output bytes were written (chunk {} ends at byte {})", m, have, m - 3, need)); }
+            if have < need { self.lag_violation = Some(format!("encryption had consumed {} input chunks ({} bytes) but only {} output bytes were written (the record of chunk {} ends at byte {})", m, self.pos, have, m - 3, need)); }
         }
         self.calls += 1;
         let left = self.size - self.pos;
-        let cap = match self.var { 0 => buf.len(), 1 => 1 + (gen_u64(self.seed, self.calls) % buf.len() as u64) as usize, _ => (buf.len() / 2 + 1).min(buf.len()) };
+        let cap = match self.var { 0 => buf.len(), 1 => 1 + (gen_u64(self.seed, self.calls) % buf.len() as u64) as usize, 3 => 512.min(buf.len()), _ => (buf.len() / 2 + 1).min(buf.len()) };
         let n = (cap as u64).min(left) as usize;
-        gen::fill_at(self.seed, self.pos, &mut buf[..n]); self.pos += n as u64; Ok(n)
+        gen::fill_at(self.seed, self.pos, &mut buf[..n]); self.pos += n as u64;
+        if n > 0 { self.last_end += 32 + n as u64; self.ends[(self.nchunks % 8) as usize] = self.last_end; self.nchunks += 1; }
+        Ok(n)
     }
 }
 fn gen_u64(seed: u64, i: u64) -> u64 { let mut b = [0u8; 8]; gen::fill_at(seed ^ 0xABCD, i * 8, &mut b); u64::from_le_bytes(b) }
@@ -93,7 +97,7 @@ pub fn run_pipeline(c: &Case) -> Result<Measure, String> {
         let _ = ctt2;
         (res, peak, largest, allocs, sink.pos, sink.bad, rd.lag_violation)
     });
-    let mut src = Source { seed: c.seed, size: c.size, pos: 0, var: c.read_var, calls: 0, written: ct_total.clone(), hdr, lag_violation: None };
+    let mut src = Source { seed: c.seed, size: c.size, pos: 0, var: c.read_var, calls: 0, written: ct_total.clone(), hdr, lag_violation: None, nchunks: 0, ends: [0; 8], last_end: hdr };
     let mut w = PipeW { p: pipe.clone(), total: ct_total.clone() };
     let (ssk, spk, rpk) = (kx::sk(&s.sk), kx::pk(&s.pk), kx::pk(&r.pk));
     alloc::reset(1 << 20); let base = alloc::live();
@@ -134,7 +138,8 @@ pub fn run(ctx: &Ctx) {
     let maxlog = if ctx.quick() { 26 } else { 31 };
     let fixed: Vec<Case> = [0u64, 1, 65535, 65536, 65537, 3 * 65536, 3 * 65536 + 1, 10 * 65536, 1 << 24].iter().flat_map(|&size| [Mode::Key, Mode::Pass].into_iter().map(move |mode| Case { size, mode, seed: size + 3, read_var: 0 })).collect();
     ctx.sse_vec("fixed_sizes", "boundary sizes x both modes, full reads", fixed, check);
-    ctx.pbt("sizes", ctx.n(48, 300), || (prop_oneof![2 => 0u64..400_000, 6 => (17u32..=maxlog, 0u64..1000).prop_map(|(e, m)| (1u64 << e) + ((1u64 << e) * m / 1000))], prop_oneof![3 => Just(Mode::Key), 1 => Just(Mode::Pass)], any::<u64>(), 0u8..3).prop_map(|(size, mode, seed, read_var)| Case { size, mode, seed, read_var }), check);
+    ctx.sse_vec("pipe_like_reads", "512-byte and half-buffer reads (a short read is a whole chunk): the lag bound counts chunks, not bytes", vec![Case { size: 300_000, mode: Mode::Key, seed: 11, read_var: 3 }, Case { size: 100_000, mode: Mode::Pass, seed: 12, read_var: 3 }, Case { size: 1 << 20, mode: Mode::Key, seed: 13, read_var: 2 }, Case { size: 1 << 20, mode: Mode::Key, seed: 14, read_var: 1 }], check);
+    ctx.pbt("sizes", ctx.n(48, 300), || (prop_oneof![2 => 0u64..400_000, 6 => (17u32..=maxlog, 0u64..1000).prop_map(|(e, m)| (1u64 << e) + ((1u64 << e) * m / 1000))], prop_oneof![3 => Just(Mode::Key), 1 => Just(Mode::Pass)], any::<u64>(), 0u8..4).prop_map(|(size, mode, seed, read_var)| { let size = if read_var == 3 { size.min(2 << 20) } else { size }; Case { size, mode, seed, read_var } }), check);
     if !ctx.quick() { ctx.sse_vec("five_gib", "one 5 GiB stream (crosses 2^32 bytes and 65536 chunks)", vec![Case { size: 5 << 30, mode: Mode::Key, seed: 5, read_var: 0 }], check); }
     let b = BASELINE.lock().unwrap(); ctx.put("baseline_peak_256KiB", serde_json::json!(b.iter().map(|(m, e, d)| serde_json::json!({"mode": format!("{:?}", m), "encrypt_peak": e, "decrypt_peak": d})).collect::<Vec<_>>()));
 }
